@@ -30,6 +30,16 @@ MAKO_SRC = os.environ.get("MAKO_SRC", "/repo")
 NCPU = os.cpu_count() or 4
 
 
+def tscale(seconds):
+    """Time limits exist to stop a hung tool, not to judge the tree: they are scaled generously (a loaded or slower
+    machine must not turn a passing check into a machinery failure).  VERIF_TIMEOUT_FACTOR overrides the factor."""
+    try:
+        f = float(os.environ.get("VERIF_TIMEOUT_FACTOR", "4"))
+    except ValueError:
+        f = 4.0
+    return int(seconds * max(f, 1.0))
+
+
 class MachineryError(Exception):
     """Something in the verification machinery itself failed (exit 2)."""
 
@@ -328,6 +338,7 @@ class Run:
         With expect_ok, any TLC error that is not an invariant/property violation raises
         MachineryError; violations are left to the caller (res.violated)."""
         name = name or module
+        timeout = tscale(timeout)
         work = self.subdir("tlc-" + name)
         for f in os.listdir(SPEC_DIR):
             if f.endswith(".tla"):
